@@ -132,6 +132,8 @@ class Engine:
         if self.opts.get('listener', True):
             self.listener = make_listener(plumpy, self)
             proc.add_process_listener(self.listener)
+            if self.opts.get('register_twice'):
+                proc.add_process_listener(self.listener)  # registering the same listener again changes nothing
             if self.opts.get('oneshot'):
                 self.second_listener = make_listener(plumpy, _SecondListener(self))
                 proc.add_process_listener(self.second_listener)
